@@ -65,6 +65,7 @@ RULE_FUNCS = [
     (T.r_dom_store, ['R10.3', 'R10.4', 'R10.5', 'R18.a', 'R18.c']),
     (T.r_cache_store, ['R18.a', 'R18.b', 'R18.c', 'R18.e']),
     (T.r_dashmap_guards, ['R18.a']),
+    (T.r_neutral_components, ['R01.8']),
 ]
 
 
@@ -151,8 +152,8 @@ PROPS = {
     'C06': dict(fn=mk(['R06.', 'R02.4', 'R02.6', 'R01.6', 'R01.7', 'R12.e', 'R07.5', 'R05.1']), explanation='arc redirection with relaxed cost, relaxed/deleted flags, exactness propagation, complete reset between compilations (field table from the ADT), flag bits and tables, rough-bound pruning direction, exactness withdrawn when squashing'),
     'C07': dict(fn=mk(['R07.', 'R01.7', 'R02.4', 'R02.5', 'R02.6', 'R13.a', 'R13.b', 'R06.3', 'R12.a', 'R05.1']), explanation='restricted never merges, exact never squashes, truncation withdraws exactness and flags dropped nodes, squash order, value and path from one node through the best-edge chain, expanded vector is the squashed one'),
     'C08': dict(fn=mk(['R08.', 'R01.4', 'R15.3', 'R12.e', 'R12.d', 'R06.1', 'R06.2', 'R06.3', 'R02.6', 'R02.4', 'R07.5'], lambda r: r['rule'] != 'R12.e' or 'relax-' in r['instance'] or 'merge' in r['instance']), explanation='sub-problem fields from one exact, marked node; frontier/LEL admission; progress (first layer never squashed; root test for diagrams that keep nodes in the pool); ub term set; local-bound max-update; push unless ub <= best_lb'),
-    'C09': dict(fn=mk(['R09.', 'R18.', 'R03.pop', 'R07.5', 'R07.6', 'R15.5', 'R08.3', 'R08.5'], lambda r: 'threshold-order' not in r['instance'] and 'threshold-no-manual' not in r['instance']), explanation='who writes thresholds and when; explored flag; filter below the root only; filter polarity and theta inheritance; closed list of theta writes with their guards; cache entry fields; mark at pop; must_explore before compiling'),
-    'C10': dict(fn=mk(['R10.', 'R07.6', 'R15.5']), explanation='decision tables extracted by path enumeration with literal consistency: partial_cmp loop automaton (9 cases) and value stage (9 cases), cmp polarity, retain closure table, threshold terms, store keys, in-layer filtering protocol'),
+    'C09': dict(fn=mk(['R09.', 'R18.', 'R03.pop', 'R07.5', 'R07.6', 'R15.5', 'R08.3', 'R08.5', 'R01.8'], lambda r: 'threshold-order' not in r['instance'] and 'threshold-no-manual' not in r['instance']), explanation='who writes thresholds and when; explored flag; filter below the root only; filter polarity and theta inheritance; closed list of theta writes with their guards; cache entry fields; mark at pop; must_explore before compiling'),
+    'C10': dict(fn=mk(['R10.', 'R07.6', 'R15.5', 'R01.8']), explanation='decision tables extracted by path enumeration with literal consistency: partial_cmp loop automaton (9 cases) and value stage (9 cases), cmp polarity, retain closure table, threshold terms, store keys, in-layer filtering protocol'),
     'C11': dict(fn=mk(['R11.']), explanation='SimpleFringe delegation to BinaryHeap with CompareSubProblem(MaxUB); MaxUB lexicographic order and operand order; NoDupFringe: len/is_empty/clear, pop/push pairing (slot recycled, key forgotten, position recorded), swaps update both tables, dedup key derived from state AND depth, merge table of the Occupied arm (9 cases), bubble-up decision on the merged candidate'),
     'C12': dict(fn=mk(['R12.', 'R15.2', 'R11.d', 'R11.e', 'R06.3', 'R08.1']), explanation='provenance (origin terms) of every argument of transition, transition_cost, relax, merge, for_each_in_domain, next_variable; who may call _branch_on; depth counter; merged slice has at least two members'),
     'C13': dict(fn=mk(['R13.']), explanation='squash executed on every expanded layer vector; symbolic length <= max_width at every exit of _restrict/_relax; width guards'),
